@@ -66,12 +66,13 @@ var propRules = map[string]*PropSpec{
 		Technique:  techOwn,
 	},
 	"C04": {
-		Rules:       []string{"F7", "F1", "A1.api32", "F12"},
+		Rules:       []string{"F7", "F1", "A1.api32", "F12", "U4"},
 		Explanation: explBase + " C04: the early-termination clause and the purity of iteration are decided; kind dispatch in iterator init / Iterate / Ranges is exhaustive.",
 		Decided: []string{
 			"range-over-func sequences capture only parameters: each traversal creates its own iterator state",
-			"every callback invocation's stop answer is examined and, once false, the callback is never invoked again (Iterate, Values, Backward, Unset, Ranges, per-kind iterate)", "iterator init / Iterate / Ranges handle all three kinds", "iteration never changes the bitmap's contents"},
-		NotDecided: []string{"order/completeness of the produced sequence", "AdvanceIfNeeded / PeekNext arithmetic", "unset-iterator gap handling", "Ranges merging across chunks"},
+			"every callback invocation's stop answer is examined and, once false, the callback is never invoked again (Iterate, Values, Backward, Unset, Ranges, per-kind iterate)", "iterator init / Iterate / Ranges handle all three kinds", "iteration never changes the bitmap's contents",
+			"the word scan behind UnsetIterator/Unset and Ranges inverts the word before shifting it, or bounds the count taken on the shifted word"},
+		NotDecided: []string{"order/completeness of the produced sequence", "AdvanceIfNeeded / PeekNext arithmetic", "unset-iterator gap handling beyond the word scan", "Ranges merging across chunks"},
 		Technique:  "static analysis: CFG reachability after the stop edge (go/ssa), AST type-switch exhaustiveness, ownership summaries",
 	},
 	"C05": {
@@ -198,13 +199,15 @@ var propRules = map[string]*PropSpec{
 		Technique:  techMix,
 	},
 	"C15": {
-		Rules:       []string{"U1", "A1.api32", "F3.32", "F8.bitmap", "F8.run", "F2", "B8"},
+		Rules:       []string{"U1", "A1.api32", "F3.32", "F8.bitmap", "F8.run", "F2", "B8", "U4", "U5"},
 		Explanation: explBase + " C15: kernels can express the out-of-chunk sentinels (no 16-bit wrap in the neighbour kernels and drivers) and the queries are pure. Everything else about these functions is value-level.",
 		Decided: []string{
 			"no (value, error) result is used only on the error side of its test (the inverted check that made the walk past the last chunk answer -1)",
 			"no mutator leaves an empty chunk behind (the drivers ask each chunk for its minimum/maximum and ignore the error)",
-			"no 16-bit add/sub in the neighbour queries (3 kinds x 4 kernels + drivers) outside the triaged, reasoned allow-list", "neighbour queries never change the bitmap"},
-		NotDecided: []string{"the cross-chunk walk of NextAbsentValue/PreviousAbsentValue (known to be wrong on the pinned tree, see DESIGN §6)", "combineLoHi32 use", "binary searches", "agreement of sentinels between kinds (bitmapContainer.nextAbsentValue returns -1)"},
+			"no 16-bit add/sub in the neighbour queries (3 kinds x 4 kernels + drivers) outside the triaged, reasoned allow-list", "neighbour queries never change the bitmap",
+			"word scans for the next unset bit invert the word before shifting it (a complement of a shifted word is never tested against zero, nor is a position counted on it left unbounded)",
+			"combineLoHi32/16 receive the plain chunk key, never an already shifted keyspace"},
+		NotDecided: []string{"the cross-chunk walk of NextAbsentValue/PreviousAbsentValue beyond the clauses above (the gap test between consecutive keys)", "binary searches", "agreement of the 'none' sentinels between kinds"},
 		Technique:  "static analysis: integer-width rule over go/ssa with a triaged allow-list; ownership summaries",
 	},
 	"C16": {
